@@ -65,6 +65,9 @@ impl InfixOpManager {
                 RIGHT,
                 Arc::new(move |left, right| {
                     let (mut a, b) = (left.decimal()?, right.decimal()?);
+                    if (op == "/=" || op == "%=") && b.is_zero() {
+                        return Err(Error::DivideByZero);
+                    }
                     match op {
                         "+=" => a += b,
                         "-=" => a -= b,
@@ -185,6 +188,9 @@ impl InfixOpManager {
                 LEFT,
                 Arc::new(move |left, right| {
                     let (mut a, b) = (left.decimal()?, right.decimal()?);
+                    if (op == "/" || op == "%") && b.is_zero() {
+                        return Err(Error::DivideByZero);
+                    }
                     match op {
                         "+" => a += b,
                         "-" => a -= b,
